@@ -1524,7 +1524,7 @@ def correspond(ctx):
     ctx.count('variant:routing=%d,snapshot=%d' % (routing, 1 if snap else 0))
     thorough = ctx.tier == 'thorough'
     scenarios = []
-    nsc = 1500 if thorough else 120
+    nsc = 500 if thorough else 120   # 1500 took > 45 min once the reconnect families were added
     for k in range(nsc):
         v2 = ctx.rng.random() < 0.85
         nr = (k % 3 == 1)
